@@ -529,36 +529,7 @@ impl<R: Round> Context<R> {
         const THRESHOLD_SMALL_EXP: isize = 38; // 128 / log2(10)
         if repr.exponent.abs() <= THRESHOLD_SMALL_EXP {
             // if the exponent is small enough, directly evaluate the exponent
-            if repr.exponent >= 0 {
-                let signif = repr.significand * Repr::<B>::BASE.pow(repr.exponent as usize);
-                self.repr_round(Repr::new(signif, 0))
-            } else {
-                let mut num = Repr::<NewB>::new(repr.significand, 0);
-                let den = Repr::<NewB>::new(Repr::<B>::BASE.pow(-repr.exponent as usize).into(), 0);
-
-                // repr_div is not used here: its quotient can have one digit more than the precision,
-                // and the callers (to_f32, to_f64, with_base) need a result that fits the precision.
-                // Pad a short dividend such that the quotient has at least `precision` digits
-                let min_digits = self.precision + den.digits();
-                if num.digits() < min_digits {
-                    let pad = min_digits - num.digits();
-                    shl_digits_in_place::<NewB>(&mut num.significand, pad);
-                    num.exponent -= pad as isize;
-                }
-
-                // divide exactly, keep `precision` digits of the quotient and round once
-                let (q, r) = num.significand.div_rem(&den.significand);
-                let shift = digit_len::<NewB>(&q) - self.precision;
-                let exponent = num.exponent - den.exponent + shift as isize;
-                let (hi, lo) = split_digits::<NewB>(q, shift);
-                let rem = lo * &den.significand + r;
-                if rem.is_zero() {
-                    return Exact(Repr::new(hi, exponent));
-                }
-                let scale = shl_digits::<NewB>(&den.significand, shift);
-                let adjust = R::round_ratio(&hi, rem, &scale);
-                Inexact(Repr::new(hi + adjust, exponent), adjust)
-            }
+            self.convert_base_exact(&repr)
         } else if let Some((root, a, b)) = common_root(B, NewB) {
             // B = root^a and NewB = root^b (neither a power of the other, e.g. 4 -> 8, 9 -> 27): the number is
             // significand * root^(a * exponent), and with a * exponent = b * q + t (0 <= t < b) it is
@@ -586,17 +557,80 @@ impl<R: Round> Context<R> {
             // bases (NewB^guard_digits > 2^20). Without them a target precision of a handful of digits
             // (2p digits are not many more than p then) loses its last digit in several percent of the cases
             let guard_digits = digit_len::<NewB>(&IBig::from(1048576));
-            let work_context = Context::<R>::new(2 * self.precision + int_digits + guard_digits);
-            let new_exp = repr.exponent
-                * work_context
-                    .ln(&Repr::new(Repr::<B>::BASE.into(), 0))
-                    .value();
-            let (exponent, rem) = new_exp.div_rem_euclid(work_context.ln_base::<NewB>());
-            let exponent: isize = exponent.try_into().unwrap();
-            let exp_rem = rem.exp();
-            let significand = repr.significand * exp_rem.repr.significand;
-            let repr = Repr::new(significand, exponent + exp_rem.repr.exponent);
-            self.repr_round(repr)
+            let mut extra_digits = 0;
+            loop {
+                let work_context = Context::<R>::new(2 * self.precision + int_digits + guard_digits + extra_digits);
+                let new_exp = repr.exponent
+                    * work_context
+                        .ln(&Repr::new(Repr::<B>::BASE.into(), 0))
+                        .value();
+                let (exponent, rem) = new_exp.div_rem_euclid(work_context.ln_base::<NewB>());
+                let exponent: isize = exponent.try_into().unwrap();
+                let exp_rem = rem.exp();
+                let significand = &repr.significand * exp_rem.repr.significand;
+                let exponent = exponent + exp_rem.repr.exponent;
+
+                // The approximant is not the exact value: with the guard digits above it errs by less than
+                // NewB^(1 - 2 * precision - extra_digits) of its magnitude. Rounding is monotone, so the answer
+                // (flag included) is the correctly rounded one if both ends of that interval round alike; they do
+                // not if a number of the target precision or the middle between two of them lies in between
+                let pad = 2 * self.precision + extra_digits - 1;
+                let scale = shl_digits::<NewB>(&IBig::ONE, pad);
+                let low = &significand * (&scale - IBig::ONE);
+                let low = self.repr_round(Repr::new(low, exponent - pad as isize));
+                let high = significand * (scale + IBig::ONE);
+                let high = self.repr_round(Repr::new(high, exponent - pad as isize));
+                if low == high {
+                    return low;
+                }
+
+                // The value may be exactly such a number (98e100 is one of 332 bits), then no precision tells:
+                // compare the prime factors of both sides of significand * B^exponent = m * NewB^q
+                // (B and NewB have no common root here): this is only possible for
+                // |exponent| <= 126 * max(bit length of significand, bit length of 2m), evaluate the power exactly then.
+                // Otherwise the value is off every such number, and more digits will tell
+                let bits = repr.significand.bit_len().max((self.precision + 1) * NewB.bit_len()) + 1;
+                if repr.exponent.unsigned_abs() / 128 <= bits {
+                    return self.convert_base_exact(&repr);
+                }
+                extra_digits = 2 * extra_digits + guard_digits;
+            }
+        }
+    }
+
+    /// Convert a finite, nonzero repr to the other base by evaluating the power of the base exactly
+    /// (the value is rounded once). The cost grows with the magnitude of the exponent.
+    #[allow(non_upper_case_globals)]
+    fn convert_base_exact<const B: Word, const NewB: Word>(&self, repr: &Repr<B>) -> Rounded<Repr<NewB>> {
+        if repr.exponent >= 0 {
+            let signif = &repr.significand * Repr::<B>::BASE.pow(repr.exponent as usize);
+            self.repr_round(Repr::new(signif, 0))
+        } else {
+            let mut num = Repr::<NewB>::new(repr.significand.clone(), 0);
+            let den = Repr::<NewB>::new(Repr::<B>::BASE.pow(-repr.exponent as usize).into(), 0);
+
+            // repr_div is not used here: its quotient can have one digit more than the precision,
+            // and the callers (to_f32, to_f64, with_base) need a result that fits the precision.
+            // Pad a short dividend such that the quotient has at least `precision` digits
+            let min_digits = self.precision + den.digits();
+            if num.digits() < min_digits {
+                let pad = min_digits - num.digits();
+                shl_digits_in_place::<NewB>(&mut num.significand, pad);
+                num.exponent -= pad as isize;
+            }
+
+            // divide exactly, keep `precision` digits of the quotient and round once
+            let (q, r) = num.significand.div_rem(&den.significand);
+            let shift = digit_len::<NewB>(&q) - self.precision;
+            let exponent = num.exponent - den.exponent + shift as isize;
+            let (hi, lo) = split_digits::<NewB>(q, shift);
+            let rem = lo * &den.significand + r;
+            if rem.is_zero() {
+                return Exact(Repr::new(hi, exponent));
+            }
+            let scale = shl_digits::<NewB>(&den.significand, shift);
+            let adjust = R::round_ratio(&hi, rem, &scale);
+            Inexact(Repr::new(hi + adjust, exponent), adjust)
         }
     }
 }
